@@ -151,7 +151,7 @@ def check_container_kinds(prog: Program, res, only=None) -> None:
                 getattr(v, "vkinds", ()))
             n += 1
             inst = f"{tag} -> {s} holds {need}"
-            badk = {k for k in kinds if k not in (need, "<src>")}
+            badk = {k for k in kinds if k not in (need, "<src>", "<elem>")}
             if "<unknown>" in badk:
                 site = getattr(v, "why", "") or why
                 res.unrecognised("R-CONTAINER-KIND", inst, "",
